@@ -92,7 +92,9 @@ def fs_case(draw):
     names = []
     for _ in range(k):
         c = draw(st.integers(0, 9))
-        if c <= 6:
+        if pdg and c == 6:
+            names.append(draw(st.sampled_from(N.evtgen_names())))  # an EvtGen spelling under the PDG naming: unknown unless also a PDG name
+        elif c <= 6:
             names.append(draw(st.sampled_from(table)))
         elif c == 7:
             names.append(draw(st.one_of(N.synthetic_label(max_size=7), st.sampled_from(("ChargeConj(Xq)", "ChargeConj(ChargeConj(Xq))", "ChargeConj(K+)", "ChargeConj()")))))
@@ -195,7 +197,17 @@ def cdecay_case(draw):
     reps = draw(st.integers(0, 3))
     for _ in range(reps):
         ds.append(draw(st.sampled_from(ds)))
-    return {"mother": mother, "d": ds}
+    # alias names that are paired by a ChargeConj statement in some files and left unpaired in others
+    cc = []
+    for a, b in (("MyA+", "MyA-"), ("Myq", "anti-Myq")):
+        k = draw(st.sampled_from((0, 0, 1, 2, 3)))
+        if k:
+            ds.append(draw(st.sampled_from((a, b))))
+            if k == 2:
+                cc.append([a, b])
+            elif k == 3:
+                cc.append([b, a])
+    return {"mother": mother, "d": ds, "cc": cc}
 
 
 def check_cdecay(case, rec):
@@ -203,16 +215,19 @@ def check_cdecay(case, rec):
 
     m, ds = case["mother"], case["d"]
     mb = N.ref_conj(m)
-    text = f"Decay {m}\n1.0 {' '.join(ds)} PHSP;\nEnddecay\nCDecay {mb}\n"
+    ccd = {a: b for a, b in case.get("cc", [])}
+    text = "".join(f"ChargeConj {a} {b}\n" for a, b in case.get("cc", [])) + f"Decay {m}\n1.0 {' '.join(ds)} PHSP;\nEnddecay\nCDecay {mb}\n"
     p = make_parser(text, ID)
     with impl(ID, "list_decay_modes"):
         modes = p.list_decay_modes(mb)
     with impl(ID, "DaughtersDict.charge_conjugate"):
         cls_layer = Counter(dict(DaughtersDict(ds).charge_conjugate().items()))
-    want = Counter(N.ref_conj(d) for d in ds)
+    from ..decref import conj_name
+    want = Counter(conj_name(d, ccd) for d in ds)
     if len(modes) != 1 or Counter(modes[0]) != want:
-        raise Mismatch("C04:cdecay-table", f"CDecay {mb} of {m} -> {ds}", dict(want), modes)
-    if cls_layer != Counter(modes[0]):
+        raise Mismatch("C04:cdecay-table", f"CDecay {mb} of {m} -> {ds} (ChargeConj statements: {case.get('cc', [])})", dict(want), modes)
+    governed = set(ccd) | set(ccd.values())
+    if not (governed & set(ds)) and cls_layer != Counter(modes[0]):
         raise Mismatch("C04:layers-disagree", f"{m} -> {ds}", dict(cls_layer), modes[0])
     nt = len(set(ds)) < len(ds) and any(N.ref_conj(d) != d for d in ds)
     rec.case(case, nt, ["cdecay-cross-layer"], sample=lambda: {"text": text, "conjugate_table": modes})
